@@ -39,12 +39,16 @@ pub fn token_for(scope: &str) -> String {
 }
 
 impl VissConn {
-    pub async fn start(broker: databroker::broker::DataBroker) -> VissConn {
+    pub async fn start(broker: databroker::broker::DataBroker, open: bool) -> VissConn {
         let port = {
             let l = std::net::TcpListener::bind("127.0.0.1:0").unwrap();
             l.local_addr().unwrap().port()
         };
-        let auth = databroker::authorization::Authorization::new(read_file("/repo/certificates/jwt/jwt.key.pub")).unwrap();
+        let auth = if open {
+            databroker::authorization::Authorization::Disabled
+        } else {
+            databroker::authorization::Authorization::new(read_file("/repo/certificates/jwt/jwt.key.pub")).unwrap()
+        };
         let addr: std::net::SocketAddr = format!("127.0.0.1:{}", port).parse().unwrap();
         let server = tokio::spawn(async move {
             let _ = databroker::viss::server::serve(addr, broker, auth).await;
@@ -232,6 +236,13 @@ async fn enc_dp_json(w: &World, path: &str, dp: &serde_json::Value, start: Syste
 
 fn token_json(w: &World, c: &mut Cur) -> Option<Option<String>> {
     match c.next()? {
+        // 3 t: the token t presented to a server that runs with authorization disabled
+        3 => {
+            if !w.viss_open {
+                return None;
+            }
+            token_json(w, c)
+        }
         0 => Some(None),
         1 => {
             let k = c.next()?;
@@ -245,7 +256,7 @@ fn token_json(w: &World, c: &mut Cur) -> Option<Option<String>> {
 pub async fn step_viss(w: &mut World, op: Tok, c: &mut Cur<'_>, start: SystemTime) -> Vec<Vec<Tok>> {
     let bad = vec![vec![-1]];
     if w.viss.is_none() {
-        w.viss = Some(VissConn::start(w.broker.clone()).await);
+        w.viss = Some(VissConn::start(w.broker.clone(), w.viss_open).await);
     }
     let mut conn = w.viss.take().unwrap();
     let out = match op {
